@@ -174,6 +174,14 @@ def r1_write_provenance(ctx, rep):
         # page-tree locations: self.obj.location / self.obj.path inside PagetreePage
         p = resolve_with_pagetree(res, py, dest, fn, cls, trusted, why)
         ok = p.kind == "PATH" and p.root in ("OUT", "GRAPH")
+        if ok and api.endswith("rmtree") and p.root != "OUT":
+            # a whole directory is removed: only the output directory may be treated like that - it is the one the user is told
+            # is rebuilt on every run, and the one the "source directory inside it" refusal protects
+            rep.ob(site_key(py, c, api, dest), False,
+                   f"`{ast.unparse(dest)}` ({p}) is removed recursively, but it is not (below) the output directory: `graph_dir` is a "
+                   f"directory the user names for FORD to add files to - nothing checks that it does not hold sources or other files",
+                   py.nloc(c))
+            continue
         rep.ob(site_key(py, c, api, dest), ok,
                (f"destination = {p}" if ok else
                 f"destination `{ast.unparse(dest)}` is not provably below the output/graph directory: {p.why or p}"),
